@@ -178,9 +178,40 @@ FORMULAS['C10'] = FORMULAS['C10'] + ['P_C10_InboundWithinLocalLimit']
 NOT_APPLICABLE = {}
 
 
-# deviations whose defect is only in the state left behind: result, frames and events of the marking step itself are
-# what the properties demand (the call raises and emits nothing), so they are still judged at that step
-STATE_ONLY = {'misuse_closes_stream', 'misuse_closes_connection', 'failed_send_partial_state', 'update_settings_partial'}
+# Footprint of each deviation branch: the observation fields in which the as-built behaviour at the step that TAKES the branch
+# differs from what the properties demand (a repair would change these, and only these, at that step).  A divergence at that
+# step in a field outside the footprint is judged whether or not the finding still reproduces: there the as-built model and any
+# repair agree.  '*' = every field.  (Steps AFTER the branch are judged only while the finding still reproduces.)
+FOOTPRINT = {
+    'misuse_closes_stream': ['z.streams', 'z.closed'],
+    'misuse_closes_connection': ['z.conn'],
+    'failed_send_partial_state': ['z'],
+    'update_settings_partial': ['z.ls'],
+    'data_before_headers': ['*'],
+    'client_accepts_request': ['*'],
+    'refused_push_forgotten': ['z.closed', 'z.hiIn'],
+    'hpack_error_code': ['r', 'o'],
+    'ack_data_when_closed': ['o', 'z.iw', 'z.streams.iw', 'q.rw', 'r'],
+    'rst_on_closed_connection': ['o'],
+    'client_advertises_idle': ['*'],
+    'server_opens_stream': ['*'],
+    'ack_per_key': ['*'],
+    'setting_id_truncated': ['o'],
+    'push_bypasses_stream_limit': ['*'],
+    'hpack_size_update_dropped': ['z.hp'],
+    'hpack_size_update_intermediate': ['z.hp', 'o'],
+    'frame_size_limit_snapshot': ['*'],
+    'sends_before_preamble': ['*'],
+    'second_initiate_emits_preamble': ['*'],
+    'upgrade_raises_after_preamble': ['o', 'z'],
+    'header_frame_exceeds_limit': ['*'],
+    'settings_shrink_stalls_window': ['o', 'z.streams.iw', 'z.streams', 'q.rw'],
+    'content_length_rule_differs': ['*'],
+}
+
+
+def _in_prefixes(f, prefixes):
+    return '*' in prefixes or any(f == p or f.startswith(p + '.') for p in prefixes)
 
 
 # deviations whose recorded defect is a dependence on chunk boundaries
@@ -191,7 +222,8 @@ def tainted(d, alive=None):
     """Is this divergence on a step whose prediction is the recorded behaviour of a known finding that the current tree no
     longer shows?  `alive` is the set of deviation branches whose recorded finding still reproduces exactly on the current
     tree: on such branches the as-built model is still the right prediction, so steps on and after them are judged like any
-    other.  (alive=None: no deviation is taken to be alive.)"""
+    other.  At the step that takes a branch which is not alive, only the fields outside the branch's footprint are judged
+    (d['fields'] is narrowed to them).  (alive=None: no deviation is taken to be alive.)"""
     alive = alive or set()
     before = set(d.get('dev_before') or [])
     new = set(d.get('dev', [])) - before
@@ -201,10 +233,16 @@ def tainted(d, alive=None):
         return True
     if before - alive:
         return True
-    if not new - alive:
+    dead = new - alive
+    if not dead:
         return False
-    public = [f for f in d.get('fields', []) if not f.startswith('z.')]
-    return not (new - alive <= STATE_ONLY and public)
+    fp = [p for dv in dead for p in FOOTPRINT.get(dv, ['*'])]
+    outside = [f for f in d.get('fields', []) if not _in_prefixes(f, fp)]
+    if not outside:
+        return True
+    d['fields_all'] = d.get('fields', [])
+    d['fields'] = outside
+    return False
 
 
 def tags(d):
